@@ -12,6 +12,7 @@ RULE = ('each event is one public Fq/Fr call (operator in one of its six forms, 
 ASSUMPTIONS = ['operands enter through the 32-byte from_slice path and leave through to_slice (both judged on their own in C13/C07)']
 
 FORMS = ['vv', 'rv', 'vr', 'rr', 'av', 'ar']
+HOOK_CLASSES = ('fq.raw.',)
 EVENTS_PER_CASE = 250
 
 
